@@ -195,10 +195,26 @@ def polya_cases(draw):
                         draw(st.sampled_from(["pure", "pure", "mixed", "prefix"]))))
         return out
     # degraded reads: a single short body exon that itself is mostly tail, so that *all* exons may look like tail
-    body_kind = draw(st.sampled_from(["normal", "normal", "normal", "mostly_tail"]))
-    if body_kind == "mostly_tail":
+    body_kind = draw(st.sampled_from(["normal", "normal", "normal", "mostly_tail", "head_meets_tail"]))
+    if body_kind == "head_meets_tail":
+        side = "both"
+    if body_kind in ("mostly_tail", "head_meets_tail"):
         ln = draw(st.integers(6, 45))
         body = [[body[0][0], body[0][0] + ln - 1]]
+        if body_kind == "head_meets_tail":
+            # the T-rich head runs into the only body exon from the left and the A-rich tail from the right: the two
+            # 16-base finder windows (12 of 16 bases suffice) may overlap inside it
+            body_kind = "head_meets_tail"
+            seq = "T" * draw(st.integers(1, 8)) + \
+                draw(st.sampled_from(["", "AT", "AATT", "AATTTT", "TTAA", "AATTAATT", "GA", "TTAATT"])) + \
+                "A" * draw(st.integers(1, 8))
+            if len(seq) >= 4:
+                body = [[body[0][0], body[0][0] + len(seq) - 1]]
+                return {"body": body, "body_kind": body_kind, "body_seq": seq, "body_tail_frac": 1.0,
+                        "ta": [(draw(st.integers(16, 40)), draw(st.integers(50, 400)), "pure")],
+                        "tt": [(draw(st.integers(16, 40)), draw(st.integers(50, 400)), "pure")],
+                        "clip_a": draw(st.integers(0, 20)), "clip_t": draw(st.integers(0, 20)),
+                        "mfte": draw(st.sampled_from([0, 20, 40]))}
     return {"body": body, "body_kind": body_kind, "body_tail_frac": draw(st.sampled_from([0.5, 0.7, 0.9, 1.0])),
             "ta": tails() if side in ("A", "both") else [],
             "tt": tails() if side in ("T", "both") else [],
@@ -256,6 +272,12 @@ def eval_polya(case, ctx):
         cigar.append((sam.M, ln))
         if k:
             q += seq_for(b, k, ch)
+        elif case.get("body_kind") == "head_meets_tail" and case.get("body_seq"):
+            q += case["body_seq"]
+        elif case.get("body_kind") == "head_meets_tail":
+            nt = max(1, int(ln * case.get("body_tail_frac", 1.0)) // 2)
+            mid = ("AATT" * (ln // 4 + 1))[:max(0, ln - 2 * nt)]
+            q += "T" * nt + mid + "A" * (ln - nt - len(mid))
         elif case.get("body_kind") == "mostly_tail":
             nt = int(ln * case.get("body_tail_frac", 1.0))
             plain = (filler * (ln // 10 + 1))[:ln - nt]
